@@ -855,8 +855,16 @@ class UnitChecker:
     def _binvals(self, fake, a, b, env):
         # reuse x_bin's logic with precomputed operand values
         if isinstance(a, U) and isinstance(b, U):
+            if fake["op"] == "+" and a.unit == b.unit and a.trunc and b.trunc and not self.zero_ctx:
+                self.flag("R4.sum-of-truncated-quotients", fake,
+                          "the addends (%s) and (%s) were each converted to %s by an integer division that drops "
+                          "the remainder; the carries between them are lost - add in the finer unit first, then "
+                          "divide once" % (a.why, b.why, a.unit), "sum-trunc/" + a.unit)
             self.same(a, b, fake, "operands of `%s`" % fake["op"], "bin" + fake["op"])
-            return a if a.unit == b.unit else None
+            if a.unit != b.unit:
+                return None
+            # a sum of truncated quotients stays "truncated" so that a third addend is caught as well
+            return U(a.unit, a.kind, a.why, trunc=(a.trunc and b.trunc)) if (a.trunc and b.trunc) else U(a.unit, a.kind, a.why)
         if isinstance(a, U):
             self.demand(b, a)
             return a
